@@ -5,6 +5,7 @@ package sgen
 
 import (
 	"fmt"
+	"math"
 	"strconv"
 
 	"verifharness/core"
@@ -106,6 +107,9 @@ type Model struct {
 	StopTimes   []StopTime
 	// Optional files with no rows may be omitted from the archive.
 	OmitEmptyOptional bool
+	// IntPad != 0 makes Tables write about a quarter of the plain integer cells (stop_sequence, shape_pt_sequence,
+	// headway_secs, min_transfer_time, route_sort_order) zero-padded ("007", "0600", "09"): the same decimal number.
+	IntPad uint64
 }
 
 // Zones used for the first agency. The list contains UTC, an unloadable name,
@@ -123,7 +127,8 @@ var nastyTexts = []string{
 	"old\rmac",
 }
 
-var idAtoms = []string{"a", "b", "A", "1", "10", "2", "01", "s", "st", "stop", "R", "M", "x y", "a,b", `q"`, "é", "ü", "-", "_", "#", "9"}
+// The lone space makes ids that differ only by leading or trailing whitespace ("a" / "a " / " a"): distinct ids.
+var idAtoms = []string{"a", "b", "A", "1", "10", "2", "01", "s", "st", "stop", "R", "M", "x y", "a,b", `q"`, "é", "ü", "-", "_", "#", "9", " "}
 
 func text(r *core.Rand) string {
 	if r.Chance(1, 3) {
@@ -212,9 +217,22 @@ func seconds(r *core.Rand) int {
 // leap days (also of years divisible by 100 and 400), ends of months and years, epoch edges.
 var BoundaryDates = []Date{{2000, 2, 29}, {2024, 2, 29}, {2096, 2, 29}, {2000, 2, 28}, {2000, 3, 1}, {1970, 1, 1}, {1999, 12, 31}, {2000, 1, 1}, {2038, 1, 19}, {2038, 1, 20}, {2099, 12, 31}, {2023, 2, 28}, {2023, 12, 31}, {1972, 2, 29}}
 
+// TransitionDates are civil dates on which a zone of Zones changes its offset later in the day (local midnight exists
+// and is unambiguous, but the offset at the day's other instants, e.g. at UTC midnight, differs from the one at local midnight).
+var TransitionDates = []Date{
+	{2024, 3, 10}, {2024, 11, 3}, {2024, 3, 11}, // America/New_York, America/Havana, America/St_Johns
+	{2024, 3, 31}, {2024, 10, 27}, // Europe/London, Asia/Beirut
+	{2024, 4, 7}, {2024, 10, 6}, {2024, 10, 5}, {2024, 4, 6}, // Australia/Lord_Howe (and Sydney-like rules)
+	{2024, 9, 8}, {2024, 4, 26}, {2024, 11, 1}, {2018, 2, 18}, // America/Santiago, Africa/Cairo, America/Sao_Paulo
+	{1994, 12, 30}, {1995, 1, 1}, // around the day Pacific/Kiritimati skipped
+}
+
 func date(r *core.Rand) Date {
 	if r.Chance(1, 12) {
 		return core.Pick(r, BoundaryDates)
+	}
+	if r.Chance(1, 12) {
+		return core.Pick(r, TransitionDates)
 	}
 	y := 1970 + r.Intn(130)
 	if r.Chance(2, 3) {
@@ -241,8 +259,17 @@ var KnownMidnightSwitchDates = []Date{{2018, 11, 4}, {2023, 3, 12}, {2023, 3, 26
 var routeTypes = []int{0, 1, 2, 3, 4, 5, 6, 7, 11, 12}
 
 // Seqs returns n distinct sequence numbers with gaps and string-vs-number order traps.
-func Seqs(r *core.Rand, n int) []int {
+// max is the largest value the column can hold (stop_sequence: a Go int; shape_pt_sequence: int32); values around
+// 2^31 and 2^32 are drawn when they fit.
+func Seqs(r *core.Rand, n int, max int) []int {
 	pool := []int{0, 1, 2, 3, 9, 10, 11, 19, 20, 99, 100, 101, 1000, 5, 50, 500}
+	if r.Chance(1, 4) {
+		for _, b := range []int{1<<31 - 2, 1<<31 - 1, 1 << 31, 1<<31 + 1, 1<<32 - 1, 1 << 32, 1<<32 + 3, 1<<53 + 1} {
+			if b <= max {
+				pool = append(pool, b)
+			}
+		}
+	}
 	out := make([]int, 0, n)
 	used := map[int]bool{}
 	mode := r.Intn(3)
@@ -296,6 +323,9 @@ var SmallSize = Size{Agencies: 3, Routes: 5, Stops: 10, Transfers: 6, Calendars:
 // departure present, distinct sequences per trip/shape, no CR anywhere.
 func Gen(r *core.Rand, sz Size) *Model {
 	m := &Model{OmitEmptyOptional: r.Bool()}
+	if r.Bool() {
+		m.IntPad = r.Uint64() | 1
+	}
 	ids := newIDGen(r)
 	nA := sz.n(r, 1, sz.Agencies)
 	for i := 0; i < nA; i++ {
@@ -413,7 +443,7 @@ func Gen(r *core.Rand, sz Size) *Model {
 		id := ids.next()
 		shapeIDs = append(shapeIDs, id)
 		np := sz.n(r, 1, sz.ShapePtsPer)
-		seqs := Seqs(r, np)
+		seqs := Seqs(r, np, math.MaxInt32)
 		var pts []ShapePt
 		for _, s := range seqs {
 			pts = append(pts, ShapePt{Shape: id, Lat: Coord(r, 90), Lon: Coord(r, 180), Seq: int32(s), Dist: optF64(r, func() float64 { return float64(r.Intn(100000)) / 10 })})
@@ -442,7 +472,7 @@ func Gen(r *core.Rand, sz Size) *Model {
 	var perTrip [][]StopTime
 	for ti := 0; ti < nTr; ti++ {
 		n := sz.n(r, 0, sz.StopTimesPer+1)
-		seqs := Seqs(r, n)
+		seqs := Seqs(r, n, math.MaxInt64)
 		var sts []StopTime
 		for _, s := range seqs {
 			a := seconds(r)
